@@ -13,8 +13,10 @@ import traceback
 from . import solve, native, REPO
 
 VERIF = os.path.dirname(os.path.dirname(os.path.abspath(__file__)))
-EVID = os.path.join(VERIF, 'evidence')
-REPLAYS = os.path.join(VERIF, 'replays')
+# mutant runs (tools/mutcheck) write their evidence and replay files elsewhere, so that /verif/evidence always describes /repo
+OUT = os.environ.get('PYIGA_VERIF_OUT', VERIF)
+EVID = os.path.join(OUT, 'evidence')
+REPLAYS = os.path.join(OUT, 'replays')
 KNOWN = os.path.join(VERIF, 'known_findings.json')
 
 BASE_ASSUMPTIONS = [
